@@ -59,9 +59,20 @@ pub fn run(ctx: &mut Ctx) {
                     lines.push(format!("{}##{}{}{}", loc, sel, k, act));
                 }
             }
-            lines.push("example.org##.site-only".into());
-            lines.push("example.org#@#.ad".into());
+            // (one list in five has no site-specific rule at all, and then possibly nothing but
+            // un-keyed generic selectors)
+            let bare = r.chance(1, 5);
+            if bare && r.chance(1, 2) {
+                lines.retain(|l| l.starts_with("##") && key_of(&l[2..]).is_none());
+                sels.retain(|s| key_of(s).is_none() && lines.iter().any(|l| &l[2..] == s));
+            }
+            if !bare {
+                lines.push("example.org##.site-only".into());
+                lines.push("example.org#@#.ad".into());
+            }
             let e = build(&lines, r.chance(1, 2), r.chance(1, 2), 0);
+            // one engine in three is replaced by its twin loaded from serialized bytes
+            let e = if r.chance(1, 3) { crate::mon::c08::roundtrip(&e, r.chance(1, 2)).expect("round trip of own buffer") } else { e };
             sels.sort();
             sels.dedup();
             let generic: BTreeSet<String> = sels.iter().cloned().collect();
